@@ -25,7 +25,7 @@ func TestMain(m *testing.M) { ev.Main(m, "C15") }
 // ---------------------------------------------------------------- recording
 
 type cmd struct {
-	kind string // "" | "short" | "error" | "block"
+	kind string // "" | "short" | "error" | "block" | "twice"
 	at   string // atom id with side prefix, e.g. "C:I3" (client side invoke func 3)
 }
 
@@ -106,6 +106,10 @@ func invokeBody(atom string, ctx context.Context, name string, args []interface{
 			return nil, errors.New("inj@" + full)
 		case "block":
 			park(id)
+		case "twice":
+			// what a retrying plugin does: everything below runs once, its outcome is dropped, and runs again
+			next(ctx, name, args)
+			record(id, "again "+full)
 		}
 	}
 	result, err = next(ctx, name, args)
@@ -138,6 +142,9 @@ func ioBody(atom string, ctx context.Context, request []byte, next core.NextIOHa
 			return nil, errors.New("inj@" + full)
 		case "block":
 			park(id)
+		case "twice":
+			next(ctx, request)
+			record(id, "again "+full)
 		}
 	}
 	response, err = next(ctx, request)
@@ -381,6 +388,43 @@ func expected(id int, ci, cio, sio, si []string, c cmd) (trace []string, result 
 		full  string
 		stage int
 	}
+	if c.kind == "twice" {
+		// the layers below the one that calls next twice are passed twice, in the same order
+		var all []string
+		for _, st := range stages {
+			for _, a := range st.atoms {
+				all = append(all, st.side+a)
+			}
+		}
+		p := -1
+		for i, f := range all {
+			if f == c.at {
+				p = i
+				break
+			}
+		}
+		plain, result, _ := expected(id, ci, cio, sio, si, cmd{})
+		if p < 0 {
+			return plain, result, ""
+		}
+		var below []string
+		for i := p + 1; i < len(all); i++ {
+			below = append(below, "enter "+all[i])
+		}
+		for i := len(all) - 1; i > p; i-- {
+			below = append(below, "exit "+all[i])
+		}
+		for i := 0; i <= p; i++ {
+			trace = append(trace, "enter "+all[i])
+		}
+		trace = append(trace, below...)
+		trace = append(trace, "again "+c.at)
+		trace = append(trace, below...)
+		for i := p; i >= 0; i-- {
+			trace = append(trace, "exit "+all[i])
+		}
+		return trace, result, ""
+	}
 	var stack []frame
 	stopStage := -1
 	stopped := ""
@@ -513,7 +557,7 @@ func drawSubset(rt *rapid.T, pool []obj, label string) []obj {
 }
 
 func drawCmd(rt *rapid.T, pool []obj) cmd {
-	kind := rapid.SampledFrom([]string{"", "", "", "short", "error"}).Draw(rt, "cmdKind")
+	kind := rapid.SampledFrom([]string{"", "", "", "short", "error", "twice"}).Draw(rt, "cmdKind")
 	if kind == "" {
 		return cmd{}
 	}
